@@ -150,7 +150,9 @@ def run(ctx):
     del_handlers = []
     for name, f in F.fns.items():
         cs = f.calls()
-        if any(t.get("rpath") in S.remove_fns for b, t in cs) and any(t.get("rpath") in release_fns for b, t in cs):
+        # every non-closure function that removes a store entry by key must release that entry's weight
+        # (the removal hooks are closures: they run *after* the release, in the other direction)
+        if f.kind != "Closure" and any(t.get("rpath") in S.remove_fns for b, t in cs):
             del_handlers.append(f)
     ctx.floor("R05.2", "delete handlers (remove from store, release weight)", len(del_handlers), 1)
     for f in del_handlers:
